@@ -49,6 +49,11 @@ type AbsEnv struct {
 	// SymCmp resolves a comparison between two opaque symbols; ok=false => undecided
 	SymCmp func(op token.Token, a, b AVal) (bool, bool)
 	MaxSteps int
+	// Effects, when non-nil, receives "addr=value" for every store to non-local memory instead
+	// of the evaluation being abandoned (the predicate is then "effect-recording", not pure).
+	Effects *[]string
+	// OpaqueCalls: calls the oracle does not resolve yield opaque symbols (logging etc.).
+	OpaqueCalls bool
 }
 
 type absState struct {
@@ -133,7 +138,19 @@ func absEval(fn *ssa.Function, env *AbsEnv) ([]AVal, string) {
 			case *ssa.Store:
 				root, _ := addrRoot(x.Addr)
 				if _, ok := root.(*ssa.Alloc); !ok {
-					return nil, "store to non-local memory"
+					if env.Effects == nil {
+						return nil, "store to non-local memory"
+					}
+					av, err := st.get(x.Addr)
+					if err != "" {
+						return nil, err
+					}
+					vv, err := st.get(x.Val)
+					if err != "" {
+						return nil, err
+					}
+					*env.Effects = append(*env.Effects, trimAmp(av.String())+"="+vv.String())
+					continue
 				}
 				v, err := st.get(x.Val)
 				if err != "" {
@@ -297,6 +314,9 @@ func (st *absState) eval(v ssa.Value) (AVal, string) {
 		}
 		o := calleeObj(x)
 		if o == nil {
+			if st.env.OpaqueCalls {
+				return aSym("dyn()"), ""
+			}
 			return AVal{}, "dynamic call"
 		}
 		if st.env.Oracle != nil {
@@ -310,8 +330,28 @@ func (st *absState) eval(v ssa.Value) (AVal, string) {
 				return aSym("error!"), "" // a fresh non-nil error
 			}
 		}
+		if st.env.OpaqueCalls {
+			if tup, ok := x.Type().(*types.Tuple); ok && tup.Len() > 1 {
+				r := AVal{}
+				for i := 0; i < tup.Len(); i++ {
+					r.Tup = append(r.Tup, aSym(fmt.Sprintf("%s()#%d", o.Name(), i)))
+				}
+				return r, ""
+			}
+			return aSym(o.Name() + "()"), ""
+		}
 		return AVal{}, "unresolved call to " + o.FullName()
-	case *ssa.Lookup, *ssa.Index, *ssa.IndexAddr, *ssa.Slice, *ssa.TypeAssert, *ssa.MakeMap, *ssa.MakeSlice:
+	case *ssa.IndexAddr:
+		b, err := st.get(x.X)
+		if err != "" {
+			return AVal{}, err
+		}
+		i, err := st.get(x.Index)
+		if err != "" {
+			return AVal{}, err
+		}
+		return aSym("&" + trimAmp(b.String()) + "[" + i.String() + "]"), ""
+	case *ssa.Lookup, *ssa.Index, *ssa.Slice, *ssa.TypeAssert, *ssa.MakeMap, *ssa.MakeSlice, *ssa.MakeClosure, *ssa.MakeChan:
 		return aSym(v.Name()), ""
 	}
 	return AVal{}, fmt.Sprintf("unsupported value %T", v)
